@@ -185,6 +185,13 @@ def perAxisEval (es : List (Edge K)) (v : List Nat → V) : V :=
 def perAxisInterp (axes : List (Axis K)) (v : List Nat → V) (p : List K) : V :=
   perAxisEval (List.zipWith Axis.edge axes p) v
 
+/-- `per_axis_interpolator` at one point: with every axis set to `'nearest'` the call is
+served by `_NearestInterpolator` (no arithmetic on the values, so integer and string data
+work), otherwise by `_PerAxisInterpolator`. -/
+def perAxisInterpolator (axes : List (Axis K)) (v : List Nat → V) (p : List K) : V :=
+  if axes.all (fun a => a.scheme == .nearest) then nearestInterp axes v p
+  else perAxisInterp axes v p
+
 /-! ### Calling conventions (`_check_interp_input`, `_Interpolator.__call__`)
 
 The per-axis stage (`_find_indices`, weights) is vectorised over each coordinate row; what
